@@ -608,6 +608,87 @@ def check_harmonic_lines(ctx, out, kind, wave, A, w0, phi, n_harm, extra=None):
                 return
     out.count('harmonic_lines_ok')
 
+C09_SCALES = [1e-9, 1e-6, 1e-3, 1e3, 1e6, 1e9]
+
+def scale_comps(comps, k):
+    """all impedances × k (R·k, L·k, C/k, internal R·k, internal G/k), current sources ÷ k: every voltage and
+    potential of the circuit stays what it was, every current is divided by k"""
+    out = []
+    for c in comps:
+        c = dict(c); kind = c['kind']
+        if kind in ('R', 'L'): c['v'] = c['v'] * k
+        elif kind == 'C': c['v'] = c['v'] / k
+        elif kind in ('Idc', 'Iac', 'Iper'):
+            c['v'] = c['v'] / k
+            if c.get('G'): c['G'] = c['G'] / k
+        elif kind in ('Vdc', 'Vac', 'Vper') and c.get('R'): c['R'] = c['R'] * k
+        out.append(c)
+    return out
+
+def _equil_cond(A):
+    A = np.array(A, dtype=complex)
+    if not A.size: return 1.0
+    try:
+        for _ in range(6):
+            r = np.sqrt(np.max(np.abs(A), axis=1)); c = np.sqrt(np.max(np.abs(A), axis=0))
+            r[r == 0] = 1; c[c == 0] = 1
+            A = A / r[:, None] / c[None, :]
+        v = float(np.linalg.cond(A))
+        return v if math.isfinite(v) else float('inf')
+    except Exception:
+        return float('inf')
+
+def check_scale_invariance(ctx, out, comps, w_max, k, rng):
+    """unit scales: the same circuit in other units (impedances × k, current sources ÷ k) must report the same
+    spectral lines and time functions for potentials and voltages and 1/k times the currents — compared purely
+    relatively, guarded by the condition number of the equilibrated per-frequency systems"""
+    from CircuitCalculator.Circuit.solution import FrequencyDomainSolution, TimeDomainSolution
+    from CircuitCalculator.Circuit.circuit import transform_circuit
+    from CircuitCalculator.Network.NodalAnalysis import node_analysis as na
+    out.evaluations += 1
+    c2 = scale_comps(comps, k)
+    P = dict(circuit=pretty(c2), w_max=w_max, impedance_scale=k)
+    case = dict(kind='scale', comps=comps, w_max=w_max, k=k)
+    try:
+        f1 = FrequencyDomainSolution(mk_circuit(comps), w_max=w_max); f2 = FrequencyDomainSolution(mk_circuit(c2), w_max=w_max)
+        t1 = TimeDomainSolution(mk_circuit(comps), w_max=w_max); t2 = TimeDomainSolution(mk_circuit(c2), w_max=w_max)
+    except Exception as e:
+        out.count('scaled_solution_error:' + tag(e)); return
+    ws = [float(w) for w in f1.w]
+    if [float(w) for w in f2.w] != ws:
+        out.spec_fail(dict(op='unit_scale', symptom='frequency_list_changes', impedance_scale='small' if k < 1 else 'large'),
+                      'the analysed frequencies depend on the unit of impedance', P, case=case); return
+    for circ in (mk_circuit(comps), mk_circuit(c2)):
+        for w in ws:
+            if not (_equil_cond(na.nodal_analysis_coefficient_matrix(transform_circuit(circ, w))) < 1e6):
+                out.skip('ill_conditioned'); return
+    ids, nodes = quantities(comps)
+    f = facts(comps, ws)
+    out.nontrivial(('unit_scale', k, len(ws), len(comps)))
+    t = rng.uniform(0, 5)
+    # natural magnitudes of the original circuit: an exact zero is reported as rounding noise of that size
+    vmax = max([abs(complex(x)) for n in ids for x in f1.get_voltage(n)[1]] + [abs(complex(x)) for n in nodes for x in f1.get_potential(n)[1]] + [1e-300])
+    imax = max([abs(complex(x)) for n in ids for x in f1.get_current(n)[1]] + [1e-300])
+    rs = [c['v'] for c in comps if c['kind'] == 'R'] or [1.0]
+    ref_v = max(vmax, imax * max(rs)); ref_i = max(imax, vmax / min(rs))
+    for kind, names, factor in (('potential', nodes, 1.0), ('voltage', ids, 1.0), ('current', ids, k)):
+        lines1 = {n: [complex(x) for x in getattr(f1, 'get_' + kind)(n)[1]] for n in names}
+        lines2 = {n: [complex(x) * factor for x in getattr(f2, 'get_' + kind)(n)[1]] for n in names}
+        ref = ref_i if kind == 'current' else ref_v
+        for n in names:
+            for wk, a, b in zip(ws, lines1[n], lines2[n]):
+                if not (abs(a - b) <= 1e-6 * ref):
+                    out.spec_fail(dict(op='unit_scale', symptom='line_depends_on_unit', quantity=kind, impedance_scale='small' if k < 1 else 'large', **f),
+                                  f'{kind} line of {n} at w={wk}: {a} in the original units, {b} (rescaled) with impedances ×{k:g}', P,
+                                  impl=dict(a=a, b=b), case=case)
+                    return
+            a = float(getattr(t1, 'get_' + kind)(n)(t)); b = float(getattr(t2, 'get_' + kind)(n)(t)) * factor
+            if not (abs(a - b) <= 1e-6 * ref * max(1, len(ws))):
+                out.spec_fail(dict(op='unit_scale', symptom='time_function_depends_on_unit', quantity=kind, impedance_scale='small' if k < 1 else 'large', **f),
+                              f'{kind} of {n} at t={t}: {a} in the original units, {b} (rescaled) with impedances ×{k:g}', P, impl=dict(a=a, b=b), case=case)
+                return
+    out.count('unit_scale_ok')
+
 # --------------------------------------------------------------------------- driver of the cases
 
 def run_solution_case(ctx, out, comps, w_max, rng):
@@ -632,6 +713,8 @@ def run_solution_case(ctx, out, comps, w_max, rng):
     check_kcl(ctx, out, comps, w_max, td, ws, scale, rng)
     check_superposition(ctx, out, comps, w_max, td, ws, scale, rng)
     check_two_sided(ctx, out, comps, w_max)
+    for k in rng.sample(C09_SCALES, 2):
+        check_scale_invariance(ctx, out, comps, w_max, k, rng)
 
 EPS = 2.0 ** -20      # < w_resolution, exactly representable next to the dyadic pool
 D1, D2 = 7 / 8192, 9 / 8192     # 1, 1+D1, 1+D2: D1 and D2-D1 are within the resolution, D2 is not — a chain
@@ -729,6 +812,8 @@ def replay(ctx, out, rp):
     elif k in ('solution', 'two_sided'):
         check_freqs(ctx, out, case['comps'], case['w_max'], False)
         run_solution_case(ctx, out, case['comps'], case['w_max'], rng)
+    elif k == 'scale':
+        check_scale_invariance(ctx, out, case['comps'], case['w_max'], case['k'], rng)
     elif k == 'harmonic_lines':
         check_harmonic_lines(ctx, out, case['src'], case['wave'], case['A'], case['w0'], case['phi'], case['n_harm'], extra=case.get('extra'))
     elif k == 'reconstruction':
